@@ -29,8 +29,9 @@ CHECKS = {
     text="Dataset.tla defines the verified times/leads/locations as set comprehensions over the documented predicates of the nine "
          "subsetting options (+ obsrange masking); TLC enumerates every set of up to 2 (quick) / 3 (thorough) options, each with values "
          "selecting everything / a strict subset / range ends equal to a coordinate / nothing, on two inputs with different order and "
-         "coverage (+ climatology); dims, error-exit/NaN outcome of empty selections and all request results are compared with Data(...).",
-    technique="TLA+ spec (Dataset.tla SelTime/SelLead/SelLoc) model-checked with TLC; generated option sets replayed into verif.data.Data",
+         "coverage (+ climatology); dims, error-exit/NaN outcome of empty selections and all request results are compared with Data(...). "
+         "Code->spec: the Data objects the repository's own tests build (its -t/-d/-tod/-l/-lx/-latrange/-lonrange/-obsrange fixtures) are recorded and TLC checks their verified dimensions, error exits and returned arrays against the same definitions (Trace_DataImpl).",
+    technique="TLA+ spec (Dataset.tla SelTime/SelLead/SelLoc) model-checked with TLC; generated option sets replayed into verif.data.Data; executions of the repository's test-suite validated by TLC",
     ref="6/C03"),
  "C04": dict(
     text="Scoring.tla composes Dataset.tla and Metrics.tla: a score is the metric's definition on the contributing cases of the slice, "
@@ -165,8 +166,9 @@ CHECKS = {
          "over a 12-request core menu (datasets x 2^12 states). Spec->code: maximal behaviours are replayed on one real Data object (results vs the history-free "
          "expectation, all earlier arrays vs their snapshots, Input arrays unchanged). Code->spec: hook traces of those executions are "
          "and of random request sequences are validated by TLC against the model (Trace_DataImpl), internal disagreement being MODEL-DRIFT only. "
-         "Repeating a command: every command of a small menu is run in several fresh interpreters (different string-hash seeds) on files with and without a location column and must print the same.",
-    technique="TLA+ refinement DataImpl => Dataset checked by TLC over all request histories (bounded: every sequence; unbounded: every reachable cache state under a canonical view); behaviours replayed into verif.data.Data; hook traces validated by TLC",
+         "Repeating a command: every command of a small menu is run in several fresh interpreters (different string-hash seeds) on files with and without a location column and must print the same. "
+         "The repository's own test-suite is run with the hooks on: every Data object its tests build from verif/tests/files and every array those objects return is one more trace that TLC validates (verified dimensions, error exits only for empty selections, returned values, cache internals).",
+    technique="TLA+ refinement DataImpl => Dataset checked by TLC over all request histories (bounded: every sequence; unbounded: every reachable cache state under a canonical view); behaviours replayed into verif.data.Data; hook traces (own drivers and the repository's test-suite) validated by TLC",
     ref="6/C18"),
  "C19": dict(
     text="Combos.tla lists the documented names (70 metrics, 28 diagrams, 19 -x dimensions + default, 8 output types), the option variants "
